@@ -1461,6 +1461,13 @@ def gen_percentile(draw, tier="quick"):
             if cls == "TPLStable":
                 spec["opt"]["alpha"] = draw(st.floats(0.3, 2.0))
         pf = draw(st.sampled_from([0.01, 0.05, 0.5, 0.9, 0.99]))
+    elif draw(st.integers(0, 5)) == 0:
+        # hole-effect correlations (several crossings of a high level) with a rescale factor far from one
+        dim = draw(st.sampled_from([1, 2, 3]))
+        spec["cls"], spec["dim"] = "JBessel", dim
+        spec["opt"] = {"nu": float(dim / 2 - 1 + draw(st.sampled_from([0.5, 0.75, 1.0])))}
+        spec["rescale"] = draw(st.sampled_from([8.5, 20.0, 60.0, 0.05]))
+        pf = draw(st.sampled_from([0.9, 0.95, 0.99]))
     return {"spec": spec, "pfrac": float(pf)}
 
 
@@ -1509,6 +1516,10 @@ def check_percentile(case, rec):
     m = lib(build_model, spec, _tags=tags)
     want = cf.first_crossing(cls, dim, spec["len_scale"], spec.get("rescale"), o, per)
     require(want is not None, "oracle: percentile not reached", dict(tags, kind="oracle"))
+    if want <= 1e-150 * float(spec["len_scale"]):
+        # shape parameters so extreme that the level is reached within lags that underflow (the oracle's own crossing is 0 or denormal)
+        rec.exclude("percentile_crossing_below_1e-150")
+        return
     reg = _lag_region(spec, want)
     if reg is not None and _known(reg, case):
         rec.exclude(reg)
